@@ -581,3 +581,10 @@ def d6(cx: Cx, ob: Ob) -> None:
                     ob.violate(fn.qualname, fn.where, "from_shacl filters the declared prefixes", detail="filter")
     if not found:
         ob.undecide("from_shacl: record construction not recognised")
+
+
+@obligation("C14-D7", "text files AGREE: the JSON writers (extended prefix map, JSON-LD context) and the JSON reader (_prepare) open their files with the same encoding / errors arguments", floor=3)
+def d7(cx: Cx, ob: Ob) -> None:
+    from ..rules import open_args_agreement
+
+    open_args_agreement(cx, ob, [f"{API}.write_extended_prefix_map", f"{API}.write_jsonld_context"], [f"{API}._prepare"], "JSON round trip")
